@@ -140,6 +140,10 @@ impl Generator
 		self.local_parameters.clear();
 		self.local_variables.clear();
 		self.local_labeled_blocks.clear();
+		// Intrinsics are declared per module; a declaration cached from an
+		// earlier module belongs to a module that has since been linked
+		// away (and disposed of).
+		self.used_intrinsics.clear();
 
 		Ok(())
 	}
